@@ -87,6 +87,95 @@ def _balanced_end(toks, i):
         i += 1
 
 
+def _has_pub(header):
+    return any(t.kind == "ident" and t.text == "pub" for t in header[:2])
+
+
+def _is_pub_use(header):
+    return _has_pub(header)
+
+
+def _use_pairs(header):
+    """[(imported name, full path)] of a `use` item (`*` for a glob import)"""
+    toks = [t for t in header]
+    k = 0
+    while k < len(toks) and not (toks[k].kind == "ident" and toks[k].text == "use"):
+        k += 1
+    toks = toks[k + 1:]
+    out = []
+
+    def tree(i, prefix):
+        """parses one use-tree starting at toks[i]; returns the index after it"""
+        segs = []
+        while i < len(toks):
+            t = toks[i]
+            if t.kind == "punct" and t.text == "{":
+                i += 1
+                while i < len(toks) and not (toks[i].kind == "punct" and toks[i].text == "}"):
+                    i = tree(i, prefix + segs)
+                    if i < len(toks) and toks[i].kind == "punct" and toks[i].text == ",":
+                        i += 1
+                return i + 1
+            if t.kind == "punct" and t.text == "*":
+                out.append(("*", "::".join(prefix + segs + ["*"])))
+                return i + 1
+            if t.kind == "punct" and t.text == "::":
+                i += 1
+                continue
+            if t.kind == "ident" and t.text == "as":
+                alias = toks[i + 1].text
+                out.append((alias, "::".join(prefix + segs)))
+                return i + 2
+            if t.kind == "punct" and t.text in (",", "}"):
+                break
+            segs.append(t.text)
+            i += 1
+        if segs:
+            name = segs[-1] if segs[-1] != "self" else (prefix + segs)[-2]
+            out.append((name, "::".join(prefix + (segs if segs[-1] != "self" else segs[:-1]))))
+        return i
+    tree(0, [])
+    return out
+
+
+# names of the standard prelude (and macros / traits whose methods the sources use unqualified): importing something
+# else under one of these names changes what unqualified uses in function bodies mean
+PRELUDE = set("Option Some None Result Ok Err Vec String Box ToString ToOwned Clone Copy Default Drop Eq PartialEq Ord PartialOrd "
+              "Iterator IntoIterator Extend DoubleEndedIterator ExactSizeIterator From Into TryFrom TryInto AsRef AsMut Fn FnMut FnOnce "
+              "Send Sync Sized Unpin drop str char bool u8 u16 u32 u64 usize i8 i16 i32 i64 isize f32 f64 Self self crate super".split())
+
+
+def skeleton_diff(want, got):
+    """differences between the recorded and the current skeleton that matter.  `use` lines are compared name by name:
+    a name that is no longer imported is the compiler's business; a NEW name is accepted unless it is a glob import or
+    shadows a prelude name; a name imported from another path is a difference.  Every other line must be equal."""
+    def split(text):
+        uses, rest = {}, []
+        for l in text.split("\n"):
+            st = l.strip()
+            if st.startswith("use ") or st.startswith("pub use "):
+                body = st[st.index("use ") + 4:].rstrip(" ;")
+                alias, _eq, path = body.partition(" = ")
+                uses.setdefault((len(l) - len(l.lstrip()), st.startswith("pub "), alias), set()).add(path)
+            else:
+                rest.append(l)
+        return uses, rest
+    wu, wr = split(want)
+    gu, gr = split(got)
+    d = [l for l in difflib.unified_diff(wr, gr, "recorded", "source", lineterm="", n=0) if not l.startswith(("---", "+++", "@@"))]
+    for key, paths in sorted(gu.items()):
+        ind, pub, alias = key
+        if key in wu:
+            if paths != wu[key]:
+                d.append("~use %s: %s -> %s" % (alias, sorted(wu[key]), sorted(paths)))
+        elif alias == "*" or alias in PRELUDE or pub:
+            d.append("+%suse %s = %s" % ("pub " if pub else "", alias, sorted(paths)))
+    for key in sorted(wu):
+        if key not in gu and key[1]:
+            d.append("-pub use %s" % key[2])
+    return d
+
+
 def _is_pub(header):
     """`pub fn` (not `pub(crate)` / `pub(super)` / `pub(self)` / `pub(in ..)`)"""
     for j, t in enumerate(header):
@@ -178,7 +267,15 @@ def items(toks, i, end, indent, out, ctx="mod"):
                 out.append(pad + _txt(header))
             break
         if toks[j].text == ";":
-            if keep:
+            if keep and kind == "use":
+                # one line per imported name: `use <name> = <path> ;` (compared name by name, see skeleton_diff)
+                vis = "pub " if _is_pub_use(header) else ""
+                for alias, path in sorted(_use_pairs(header)):
+                    out.extend(alines)
+                    out.append(pad + "%suse %s = %s ;" % (vis, alias, path))
+            elif keep and kind == "type" and ctx != "trait" and not _has_pub(header):
+                pass        # a private type alias: a name for a type, checked by the compiler wherever it is used
+            elif keep:
                 out.extend(alines)
                 out.append(pad + _txt(header) + " ;")
             i = j + 1
@@ -263,9 +360,8 @@ def register(generators, gm):
             except LexError as e:
                 raise gm.GenError("%s: cannot tokenise: %s" % (rel, e))
             want = open(path, encoding="utf-8").read()
-            if got != want:
-                d = [l for l in difflib.unified_diff(want.split("\n"), got.split("\n"), "recorded", "source", lineterm="", n=0)
-                     if not l.startswith(("---", "+++", "@@"))]
+            d = skeleton_diff(want, got) if got != want else []
+            if d:
                 raise gm.GenError("%s: the item skeleton (derives, impls and the methods they define, signatures, fields, statics, "
                                   "macros, cfg attributes) differs from the one the models were written against: %s%s"
                                   % (rel, " | ".join(x[:220] for x in d[:8]), " | ..." if len(d) > 8 else ""))
